@@ -115,6 +115,7 @@ impl<T: RealNumber, D: Distance<Vec<T>, T>> PartialEq for DBSCAN<T, D> {
             && self.num_classes == other.num_classes
             && self.eps == other.eps
             && self.cluster_labels == other.cluster_labels
+            && self.knn_algorithm == other.knn_algorithm
     }
 }
 
